@@ -63,7 +63,7 @@ def patience(ctx, P, iters):
             if none is True:
                 okp = okp and val.lower().replace('"', "'") == "float('inf')"
             elif none is False:
-                okp = okp and rules.sum_terms(rv.d["value_node"]) == sorted(["self.now", "%s.sample(t=self.now,ind=%s)" % (dname, tok)])
+                okp = okp and rules.sum_terms(rv.d["value_node"]) == sorted(["self.now", "%s.sample(ind=%s,t=self.now)" % (dname, tok)])
             else:
                 okp = False
         if not okp or np_ != 2:
@@ -121,12 +121,10 @@ def renege_scan(ctx, P):
                 ctx.violation(ob, "R6.argmin", "%s.update_next_renege_time" % cls.name, "%s arm" % name, "filter-missing-on-" + name,
                               "a customer with a server (in service) must never be a renege candidate: the %s arm lacks `not %s.server`" % (name, var), loc(arm))
             # the candidate stored is the scanned customer with its own date
-            st = [s for s in arm.body if isinstance(s, ast.Assign) and "possible_next_events" in unparse(s.targets[0])]
-            app = [s for s in ast.walk(arm) if isinstance(s, ast.Call) and call_name(s) == "append"]
-            if name == "reset" and (len(st) != 1 or unparse(st[0].value).replace(" ", "") != "([%s],%s.reneging_date)" % (var, var) or "'renege'" not in unparse(st[0].targets[0])):
-                ctx.violation(ob, "R6.argmin", "%s.update_next_renege_time" % cls.name, unparse(st[0]) if st else "possible_next_events['renege']", "scan-result-not-stored", "the renege candidate must be ([customer], its reneging_date)", loc(arm))
-            app = [x_ for x_ in ast.walk(arm) if isinstance(x_, ast.Call) and call_name(x_) in ("append", "insert")]
-            if name == "tie" and app and (len(app) != 1 or unparse(app[0].args[-1]) != var or "'renege'" not in unparse(app[0].func)):
+            sr = scans.stored_result(sc, fn)
+            if name == "reset" and (sr is None or sr["elem"] != var or not sr["date_ok"] or "'renege'" not in sr["target"]):
+                ctx.violation(ob, "R6.argmin", "%s.update_next_renege_time" % cls.name, unparse(sr["node"]) if sr else "possible_next_events['renege']", "scan-result-not-stored", "the renege candidate must be ([customer], its reneging_date)", loc(arm))
+            if name == "tie" and sr is not None and not sr["ties_ok"]:
                 ctx.violation(ob, "R6.argmin", "%s.update_next_renege_time" % cls.name, "tie arm append", "scan-result-not-stored", "a tied customer must be appended to the renege candidates", loc(arm))
         # reachability: the renege event type is produced only under not-INF and REN
         C = contexts(P, view)
@@ -142,9 +140,17 @@ def renege_scan(ctx, P):
         if not first or unparse(first[0].value) != "self.decide_between_simultaneous_individuals()":
             ctx.violation(ob, "R6.argmin", "%s.renege" % cls.name, unparse(first[0]) if first else "?", "subject-not-selected", "the reneging customer must be chosen among self.next_individual (the scan's minimisers)", loc(fn))
         cls, fn = view.method("decide_between_simultaneous_individuals")
-        rv = [x for x in ast.walk(fn) if isinstance(x, ast.Return)]
-        rname = unparse(rv[0].value) if len(rv) == 1 else "?"
-        vals = sorted(set(unparse(x.value) for x in ast.walk(fn) if isinstance(x, ast.Assign) and unparse(x.targets[0]) == rname))
+        # every path returns one of the scan's minimisers: random_choice(self.next_individual) or an end of the list (temporaries read through)
+        wd = Walker(P, view, keep=lambda e: e.kind in ("return", "assign"), inline=rules.new_helper)
+        vals = set()
+        for st_ in wd.paths_of(cls, fn):
+            if st_.status != "return":
+                continue
+            defs_ = {e.d["target"]: e.d["value"] for e in st_.events if e.kind == "assign" and e.d.get("local") and e.d.get("value") not in (None, "?")}
+            rv_ = [e for e in st_.events if e.kind == "return" and e.frame.depth == 0][-1]
+            from ..scans import _subst
+            vals.add(_subst(rv_.d.get("canon") or "?", defs_).replace(" ", ""))
+        vals = sorted(vals)
         if vals not in (["random_choice(self.next_individual)", "self.next_individual[0]"], ["random_choice(self.next_individual)", "self.next_individual[-1]"]):
             ctx.violation(ob, "R6.argmin", "%s.decide_between_simultaneous_individuals" % cls.name, str(vals), "subject-not-selected", "must pick one of self.next_individual", loc(fn))
 
